@@ -4,12 +4,23 @@
    MULTI, EXEC, DISCARD or any command) the handler chain writes exactly one
    complete reply value - EXEC's array included, also when a queued command
    fails - and a pipeline of n requests yields n replies in order.
-   Assumption (validated by the wire runs for every command): a command's Run
-   writes exactly one complete value.  Process survival, redcon's protocol
-   reader and hangs are outside the model and are exercised by the wire runs. *)
+   The handler model takes for granted that a command's Run writes exactly one
+   complete value.  That is no longer an assumption: harness/cmd/wprogs translates
+   the Run method of every command type in /repo (93; helpers that receive the
+   writer inlined) into a small IR of writer calls, branches, loops over named
+   collections and returns (gen/WriterProgs.v, regenerated on every run);
+   Writer.v gives the IR its trace semantics and a checker that tracks the number of
+   values still owed as a linear expression over collection lengths; check_sound
+   (ProofWriter.v) proves that an accepted program emits exactly one complete value
+   on every path for EVERY environment, i.e. whatever the lengths of the collections;
+   and every generated program is accepted (by computation).  What remains trusted is
+   the Go -> IR translation.  Process survival, redcon's protocol reader and hangs
+   are outside the model and are exercised by the wire runs. *)
 From Coq Require Import List Bool Arith.
 Import ListNotations.
-From Redka Require Import Server ProofServer.
+From Redka Require Import Server ProofServer Writer ProofWriter ProofWriterProgs.
+From Redka.gen Require WriterProgs.
+From Coq Require Import String.
 
 Theorem C14_exactly_one_reply : forall (DB Cmd : Type) (run : Cmd -> DB -> DB * bool) st d r,
   let '(_, _, ts) := handle run st d r in complete_values ts = Some 1.
@@ -17,8 +28,37 @@ Proof. exact one_reply. Qed.
 
 Theorem C14_pipeline_of_n_gives_n_replies : forall (DB Cmd : Type) (run : Cmd -> DB -> DB * bool) rs st d,
   let '(_, _, out) := serve DB Cmd run st d rs in
-  length out = length rs /\ Forall (fun ts => complete_values ts = Some 1) out.
+  List.length out = List.length rs /\ Forall (fun ts => complete_values ts = Some 1) out.
 Proof. exact pipeline_replies. Qed.
+
+(* ---- every command's Run writes exactly one complete value ---- *)
+(* the checker is sound: for all environments (lengths unbounded) *)
+Theorem C14_accepted_writer_programs_emit_one_value : forall p, check p = true ->
+  forall env tr ret, runs p env tr ret -> one_value tr.
+Proof. exact check_sound. Qed.
+
+(* every program generated from the current source is accepted ... *)
+Theorem C14_all_generated_command_programs_are_accepted :
+  forallb (fun p => check (snd p)) WriterProgs.progs = true.
+Proof. exact all_commands_check. Qed.
+
+(* ... hence every command writes one complete value on every path, whatever the data *)
+Theorem C14_every_command_writes_exactly_one_value : forall name p,
+  In (name, p) WriterProgs.progs ->
+  forall env tr ret, runs p env tr ret -> one_value tr.
+Proof. exact every_command_writes_one_value. Qed.
+
+(* the checker is not vacuous: it refuses an array header of 2*len followed by one value per
+   element, two values in a row, and a path that writes nothing *)
+Theorem C14_checker_refuses_malformed_programs :
+  check [WArr (LMul 2 (LLen "items")); WFor "items" [WVal]] = false /\
+  check [WVal; WVal] = false /\
+  check [WIf [WVal] []] = false.
+Proof. repeat split; vm_compute; reflexivity. Qed.
 
 Print Assumptions C14_exactly_one_reply.
 Print Assumptions C14_pipeline_of_n_gives_n_replies.
+Print Assumptions C14_accepted_writer_programs_emit_one_value.
+Print Assumptions C14_all_generated_command_programs_are_accepted.
+Print Assumptions C14_every_command_writes_exactly_one_value.
+Print Assumptions C14_checker_refuses_malformed_programs.
